@@ -152,7 +152,7 @@ var preGen = rapid.Custom(func(t *rapid.T) PreFile {
 	p := PreFile{Of: -1}
 	if rapid.IntRange(0, 4).Draw(t, "atSourcePath") > 0 {
 		p.Of = rapid.IntRange(0, 24).Draw(t, "of")
-		p.Rel = rapid.SampledFrom([]string{"longer", "longer", "longer", "shorter", "samelen", "empty", "own"}).Draw(t, "rel")
+		p.Rel = rapid.SampledFrom([]string{"longer", "longer", "longer", "shorter", "samelen", "collide", "collide", "empty", "own"}).Draw(t, "rel")
 	} else {
 		p.Dir = rapid.IntRange(-1, 7).Draw(t, "dir")
 		p.Name = Name(genName(t))
@@ -164,7 +164,7 @@ var preGen = rapid.Custom(func(t *rapid.T) PreFile {
 var editGen = rapid.Custom(func(t *rapid.T) Edit {
 	e := Edit{
 		Of:    rapid.IntRange(0, 24).Draw(t, "of"),
-		Op:    rapid.SampledFrom([]string{"shrink", "shrink", "empty", "grow", "rewrite", "delete", "add"}).Draw(t, "op"),
+		Op:    rapid.SampledFrom([]string{"shrink", "shrink", "empty", "grow", "rewrite", "samelen", "collide", "collide", "delete", "add"}).Draw(t, "op"),
 		Extra: smallContentGen.Draw(t, "extra"),
 	}
 	if e.Op == "add" {
@@ -408,6 +408,16 @@ func genTree(t *rapid.T) TreeCase {
 	if rapid.IntRange(0, 5).Draw(t, "failFirst") == 0 {
 		c.FailFirst = rapid.SliceOfN(failGen, 1, 2).Draw(t, "fails")
 	}
+	// about one tree in 120 has hundreds of files and is zipped and extracted while the process may open only a few dozen
+	// more descriptors (1 in 200: the limit alone, on an ordinary tree)
+	// (rapid draws small values of a range far more often than large ones: the rare shapes sit in the upper half)
+	switch k := rapid.IntRange(0, 255).Draw(t, "manyFiles"); {
+	case k >= 200 && k < 206:
+		c.Many = rapid.IntRange(120, 500).Draw(t, "many")
+		c.FDRoom = rapid.SampledFrom([]int{16, 32, 64, 100}).Draw(t, "fdRoom")
+	case k >= 206 && k < 210:
+		c.FDRoom = rapid.SampledFrom([]int{16, 32, 64, 100}).Draw(t, "fdRoom")
+	}
 	c.Filter = rapid.SampledFrom([]string{"nil", "nil", "suffix", "suffix", "dir", "notdir", "none"}).Draw(t, "filter")
 	switch c.Filter {
 	case "suffix":
@@ -451,6 +461,40 @@ func TestC20TreeRapid(t *testing.T) {
 		st.Report(t, "TestC20TreeRapid", c, v)
 		recordTree(c, info)
 	})
+}
+
+// TestC20TreeManyFiles: systematic trees with more regular files than the process may open descriptors while ZipFolder
+// and UnzipToFolder run (FDRoom): flat and nested, one or two rounds, with and without a filter.
+func TestC20TreeManyFiles(t *testing.T) {
+	st := vstat.For(prop)
+	shard, shards := vstat.Shard()
+	nest := []Dir{{Parent: -1, Name: "a"}, {Parent: 0, Name: "b"}, {Parent: 1, Name: "c"}, {Parent: -1, Name: "d d"}}
+	cases := []TreeCase{
+		{Many: 300, FDRoom: 32, Recursive: true, Filter: "nil"},
+		{Many: 200, FDRoom: 16, Dirs: nest, Recursive: true, Filter: "nil", TrailingSlash: true, DestExists: true,
+			Rounds: []Round{{Edits: []Edit{{Of: 7, Op: "grow", Extra: Content{Data: []byte("more")}}}}}},
+		{Many: 260, FDRoom: 100, Dirs: nest, Recursive: true, Filter: "notdir", Arg: "b", Files: []File{{Dir: -1, Name: "plain.txt", Content: Content{Pad: 5000, Seed: 7}}}},
+	}
+	if vstat.Thorough() {
+		cases = append(cases,
+			TreeCase{Many: 1200, FDRoom: 250, Dirs: nest, Recursive: true, Filter: "nil"}, // the default soft limit of some systems is 256
+			TreeCase{Many: 700, FDRoom: 64, Recursive: false, Filter: "suffix", Arg: ".dat", Rounds: []Round{{Remove: []DestOp{{Kind: "dir", Of: 1}}}}},
+			TreeCase{Many: 2100, FDRoom: 1000, Dirs: nest[:1], Recursive: true, Filter: "nil"}) // ... of most others 1024
+	}
+	n := 0
+	for i, c := range cases {
+		if i%shards != shard {
+			continue
+		}
+		info, v := RunTree(c)
+		if info.Infra != "" {
+			t.Fatalf("infra: %s", info.Infra)
+		}
+		st.Report(t, "TestC20TreeManyFiles", c, v)
+		recordTree(c, info)
+		n++
+	}
+	st.SetExhaustive("trees_with_more_files_than_descriptors", map[string]any{"cases_this_shard": n, "shards": shards})
 }
 
 // ---------------------------------------------------------------------------------------------
